@@ -413,8 +413,8 @@ theorem NP_unmFields (c : Cfg) (hc : c.pinned = false) :
     obtain ⟨⟨h1, h2⟩, h3⟩ := h
     unfold unmFields
     have hf := NP_fieldCore (c := c) (name := name) (tag := tag) (isSlice := t.isSlice) (m := m)
-      (wv := fun o j => withValue c.nest o t j) (ar := fun _ => absentRequired c t) (dv := defaultVal c t) (z := zero t)
-      hc h1 (fun o j => NP_withValue c.nest (Cfg.nest_pinned hc) t o j h2) (NP_absentRequired c hc t h2) (NP_defaultVal c hc t)
+      (wv := fun o j => withValue (c.nestIn m) o t j) (ar := fun _ => absentRequired c t) (dv := defaultVal c t) (z := zero t)
+      hc h1 (fun o j => NP_withValue (c.nestIn m) (Cfg.nest_pinned hc) t o j h2) (NP_absentRequired c hc t h2) (NP_defaultVal c hc t)
     have hr := NP_unmFields c hc rest m h3
     unfold NP at *
     intro h
